@@ -3,7 +3,7 @@
 usage: seedtest.py <seeddir> <prop> [<prop> ...]     e.g. seedtest.py /tmp/seed/C04/A C04
 Prints one JSON line: applies / suite_pass / demo_fails_with / demo_passes_without / per property: detected."""
 import json, os, subprocess, sys, shutil
-SW = "/tmp/sw"
+SW = os.environ.get("SEED_SW", "/tmp/sw")
 WT = os.path.join(SW, "wt")
 
 def sh(cmd, cwd=None, timeout=3600, env=None):
